@@ -456,6 +456,12 @@ def run_case(site, case, universe):
             f.write('not a tile')
         os.utime(p, (T0 - 86400, T0 - 86400))
         events.append({'ev': 'junk', 'j': j})
+    if bk.kind == 'file' and (variant + len(case['stores'])) % 2 == 1:
+        # tiles may be newer than the directories they are in (rewritten in place, touched, restored from a backup):
+        # the modification time of a directory says nothing about the files in it
+        for root, _dirs, _files in os.walk(site.dir):
+            if root != site.dir:
+                os.utime(root, (T0 - 30 * 86400, T0 - 30 * 86400))
     # the populated cache must be what the case says (through a fresh cache object)
     got = site.classes(addr)
     want = {(x, y, z): c for x, y, z, c in case['stores']}
